@@ -183,6 +183,41 @@ type edit struct {
 	vi   int
 }
 
+// reloadEdit: persist (GetNode, all blocks stored), re-open from the root node, re-apply the configuration
+var reloadEdit = edit{name: "\x00reload"}
+
+func (e edit) isReload() bool { return e.name == reloadEdit.name }
+
+// reopen persists the directory and loads it again from its root node.
+func (c config) reopen(ds ipld.DAGService, d uio.Directory) (uio.Directory, error) {
+	nd, err := d.GetNode()
+	if err != nil {
+		return nil, err
+	}
+	if err := ds.Add(ctx, nd); err != nil {
+		return nil, err
+	}
+	nd, err = ds.Get(ctx, nd.Cid()) // nothing in memory is shared with the old object
+	if err != nil {
+		return nil, err
+	}
+	var d2 uio.Directory
+	if c.dynamic {
+		d2, err = uio.NewDirectoryFromNode(ds, nd)
+	} else {
+		d2, err = uio.NewHAMTDirectoryFromNode(ds, nd)
+	}
+	if err != nil {
+		return nil, err
+	}
+	d2.SetMaxLinks(c.maxLinks)
+	d2.SetMaxHAMTFanout(c.width)
+	d2.SetSizeEstimationMode(c.mode)
+	d2.SetHAMTShardingSize(c.thresh)
+	d2.SetStat(c.fmode, c.mtime)
+	return d2, nil
+}
+
 type outcome struct {
 	ops, obs []string
 	log      []string
@@ -190,6 +225,7 @@ type outcome struct {
 	rootCid  string
 	rootHamt bool
 	switches int
+	reloads  int
 	ups      int
 	downs    int
 	errs     int
@@ -219,7 +255,16 @@ func runEdits(p *pool, c config, edits []edit, names map[string]int) *outcome {
 	}
 	for _, e := range edits {
 		var err error
-		if e.add {
+		if e.isReload() {
+			var d2 uio.Directory
+			d2, err = c.reopen(p.ds, d)
+			if err == nil {
+				d = d2
+			}
+			o.ops = append(o.ops, "AReload")
+			o.log = append(o.log, "reload")
+			o.reloads++
+		} else if e.add {
 			err = d.AddChild(ctx, e.name, p.nodes[e.vi])
 			o.ops = append(o.ops, vh.App("AAdd", nm(e.name), fmt.Sprintf("v%d", e.vi)))
 			if err == nil {
@@ -481,6 +526,9 @@ func TestC16(t *testing.T) {
 		nameIdx := map[string]int{}
 		var nameList []string
 		for _, ed := range edits {
+			if ed.isReload() {
+				continue
+			}
 			if _, ok := nameIdx[ed.name]; !ok {
 				nameIdx[ed.name] = len(nameList)
 				nameList = append(nameList, ed.name)
@@ -498,6 +546,7 @@ func TestC16(t *testing.T) {
 		st.Distribution["conversions:basic->hamt"] += o.ups
 		st.Distribution["conversions:hamt->basic"] += o.downs
 		st.Distribution["ops"] += len(edits)
+		st.Distribution["reloads"] += o.reloads
 		st.Distribution["errors"] += o.errs
 		if !same {
 			st.Count("root-differs-from-canonical")
@@ -516,7 +565,20 @@ func TestC16(t *testing.T) {
 	rep := func(ch string, n int) string { return strings.Repeat(ch, n) }
 	v0a, v1a, ida := 0, 1, 2 // pool indices: CIDv0 (34 bytes), CIDv1 (36 bytes), identity (short)
 
-	// ---- corpus: the witnesses of the findings ----
+	// ---- corpus: persist, re-open from the root node, then remove (seeded change C16-2 in Shard.Node():
+	// a still-unloaded value link hoisted out of a dissolved sub-shard must be re-labelled with its slot) ----
+	for _, w := range []struct{ width, total, drop int }{{256, 150, 50}, {8, 40, 15}, {16, 60, 25}} {
+		c := config{width: w.width, mode: uio.SizeEstimationLinks, global: 256 * 1024, dynamic: false}
+		var eds []edit
+		for i := 0; i < w.total; i++ {
+			eds = append(eds, edit{add: true, name: fmt.Sprintf("file-%04d", i), vi: i % len(p.nodes)})
+		}
+		eds = append(eds, reloadEdit)
+		for i := w.total - w.drop; i < w.total; i++ {
+			eds = append(eds, edit{name: fmt.Sprintf("file-%04d", i)})
+		}
+		emit(c, eds, "corpus-reload")
+	}
 	{
 		base := config{width: 256, mode: uio.SizeEstimationLinks, global: 256 * 1024, dynamic: true}
 		// C16-1 (DESIGN 4.3): four 46-byte entries + one 45-byte entry = 229 = threshold; add a 46-byte
@@ -643,7 +705,77 @@ func TestC16(t *testing.T) {
 		if !c.dynamic {
 			tag = "random-pure-hamt"
 		}
-		emit(c, genHistory(r, final, extras, len(p.nodes), 45), tag)
+		eds := genHistory(r, final, extras, len(p.nodes), 45)
+		if c.maxLinks == 0 && r.Intn(3) == 0 { // re-open the directory at random points
+			for k := 1 + r.Intn(3); k > 0; k-- {
+				at := r.Intn(len(eds) + 1)
+				eds = append(eds[:at], append([]edit{reloadEdit}, eds[at:]...)...)
+			}
+			tag += "+reload"
+		}
+		emit(c, eds, tag)
+	}
+	// ---- build, persist, re-open, shrink: multi-level shards with small sub-shards ----
+	nr := e.Pick(90, 900)
+	for i := 0; i < nr; i++ {
+		c := config{width: []int{8, 8, 16, 32, 256}[r.Intn(5)], global: 256 * 1024, dynamic: r.Intn(2) == 0}
+		c.mode = uio.SizeEstimationMode(r.Intn(2))
+		c.v1 = r.Intn(4) == 0
+		if r.Intn(3) == 0 {
+			c.fmode = os.FileMode(0o755)
+		}
+		nf, ne := 4+r.Intn(30), 3+r.Intn(16)
+		final := map[string]int{}
+		var all []string
+		seen := map[string]bool{}
+		for len(all) < nf+ne {
+			var s string
+			if r.Intn(3) == 0 {
+				s = fmt.Sprintf("k%d", r.Intn(5000))
+			} else {
+				s = randName(r)
+			}
+			if !seen[s] {
+				seen[s] = true
+				all = append(all, s)
+			}
+		}
+		for _, s := range all[:nf] {
+			final[s] = r.Intn(len(p.nodes))
+		}
+		if c.dynamic { // a threshold the final set stays above (HAMT throughout the shrinking) or just crosses
+			c.thresh = sizeOf(c, final, p) - r.Intn(40) + 10
+			if c.thresh < 1 {
+				c.thresh = 1
+			}
+			if c.mode == uio.SizeEstimationBlock && c.thresh < c.dsz() {
+				c.thresh = c.dsz()
+			}
+		}
+		var eds []edit
+		order := append([]string(nil), all...)
+		r.Shuffle(len(order), func(a, b int) { order[a], order[b] = order[b], order[a] })
+		for _, s := range order {
+			vi, ok := final[s]
+			if !ok {
+				vi = r.Intn(len(p.nodes))
+			}
+			eds = append(eds, edit{add: true, name: s, vi: vi})
+		}
+		eds = append(eds, reloadEdit)
+		drop := append([]string(nil), all[nf:]...)
+		r.Shuffle(len(drop), func(a, b int) { drop[a], drop[b] = drop[b], drop[a] })
+		for _, s := range drop {
+			eds = append(eds, edit{name: s})
+			if r.Intn(8) == 0 {
+				eds = append(eds, reloadEdit)
+			}
+		}
+		tag := "reload-shrink"
+		if !c.dynamic {
+			tag = "reload-shrink-pure-hamt"
+		}
+		emit(c, eds, tag)
 	}
 	cs.Close()
 	st.Write(e)
